@@ -180,7 +180,10 @@ def binop(ev, t, opn, a, b, inplace, ctx):
     meta = None
     if not inplace and a.meta is not None and b.meta is not None and isinstance(a.meta, tuple) and isinstance(b.meta, tuple) \
             and a.meta and b.meta and a.meta[0] == 'dim' and b.meta[0] == 'dim' and opn == 'Mult':
-        meta = ('dim', frozenset(['*'.join(sorted(a.meta[1])) + '*' + '*'.join(sorted(b.meta[1]))]))
+        fa = a.meta[2] if len(a.meta) > 2 else (a.meta[1],)
+        fb = b.meta[2] if len(b.meta) > 2 else (b.meta[1],)
+        # product of axis sizes: keep the ordered atomic factors (used by the reshape order rule)
+        meta = ('dim', frozenset(['*'.join(sorted(a.meta[1])) + '*' + '*'.join(sorted(b.meta[1]))]), tuple(fa) + tuple(fb))
         kind = SCALAR
     return AV(kind=kind, deps=deps, alias=alias, shape=shape, sign=sign, norm=norm, dtype=dtype, meta=meta,
               vid=None)
